@@ -4,7 +4,10 @@ package server
 
 import (
 	"context"
+	"crypto/ed25519"
+	"crypto/rand"
 	"crypto/sha256"
+	"encoding/pem"
 	"encoding/hex"
 	"encoding/json"
 	"fmt"
@@ -16,6 +19,8 @@ import (
 	"strings"
 	"sync"
 
+	"golang.org/x/crypto/ssh"
+
 	"github.com/ollama/ollama/api"
 )
 
@@ -25,6 +30,10 @@ import (
 // case {"kind":"push-legacy","layers":[hex...],"config":hex|null,
 //       "head":{layerhex:status},"post":{layerhex:status},"manifest":status,
 //       "patch_fail":{layerhex:n},"commit_fail":{layerhex:n}}
+// "challenge":{"head:<layerhex>"|"post:<layerhex>"|"patch:<layerhex>"|"commit:<layerhex>"|"manifest": n}: the first n requests of
+// that kind are answered 401 with a bearer challenge (WWW-Authenticate: Bearer realm="<this server>/token",...);
+// "token": status of the token endpoint (200 = hands out a token).  The client signs the token request with the ed25519
+// key under $HOME/.ollama/id_ed25519, which the driver generates in a temporary HOME.
 // patch_fail / commit_fail: the first n PATCH requests (part upload) / commit PUTs (finalising the upload) of that layer are
 // answered 500.  The legacy client retries these with real sleeps of 1, 2, 4, ... s (maxRetries = 6, so n >= 6 means
 // "never accepted", 63 s): such cases are run by props/c09.py in a process of their own, in parallel with the rest.
@@ -38,6 +47,25 @@ func VerifC09Legacy(c map[string]any) any {
 	os.Setenv("OLLAMA_MODELS", dir)
 	defer os.Setenv("OLLAMA_MODELS", old)
 
+	challenge, _ := c["challenge"].(map[string]any)
+	tokenStatus := 200
+	if v, ok := c["token"].(float64); ok {
+		tokenStatus = int(v)
+	}
+	challenged := map[string]int{}
+	if len(challenge) > 0 {
+		home := filepath.Join(dir, "home")
+		_, priv, _ := ed25519.GenerateKey(rand.Reader)
+		pb, err := ssh.MarshalPrivateKey(priv, "")
+		if err != nil {
+			return map[string]any{"harness_error": err.Error()}
+		}
+		os.MkdirAll(filepath.Join(home, ".ollama"), 0o755)
+		os.WriteFile(filepath.Join(home, ".ollama", "id_ed25519"), pem.EncodeToMemory(pb), 0o600)
+		oldHome := os.Getenv("HOME")
+		os.Setenv("HOME", home)
+		defer os.Setenv("HOME", oldHome)
+	}
 	head, _ := c["head"].(map[string]any)
 	post, _ := c["post"].(map[string]any)
 	patchFail, _ := c["patch_fail"].(map[string]any)
@@ -62,6 +90,41 @@ func VerifC09Legacy(c map[string]any) any {
 		p := r.URL.Path
 		mu.Lock()
 		defer mu.Unlock()
+		// token endpoint and bearer challenges
+		if r.Method == "GET" && p == "/token" {
+			log = append(log, fmt.Sprintf("token %d signed=%v", tokenStatus, r.Header.Get("Authorization") != ""))
+			if tokenStatus != 200 {
+				w.WriteHeader(tokenStatus)
+				return
+			}
+			fmt.Fprintf(w, `{"token":"tok-%d"}`, len(log))
+			return
+		}
+		ckey := ""
+		switch {
+		case r.Method == "HEAD" && strings.Contains(p, "/blobs/sha256:"):
+			ckey = "head:" + p[strings.LastIndex(p, ":")+1:]
+		case r.Method == "POST" && strings.HasSuffix(p, "/blobs/uploads/"):
+			for i := len(log) - 1; i >= 0; i-- {
+				if strings.HasPrefix(log[i], "head ") {
+					ckey = "post:" + strings.Fields(log[i])[1]
+					break
+				}
+			}
+		case r.Method == "PATCH" && strings.HasPrefix(p, "/v2/up/"):
+			ckey = "patch:" + strings.TrimPrefix(p, "/v2/up/")
+		case r.Method == "PUT" && strings.HasPrefix(p, "/v2/up/"):
+			ckey = "commit:" + strings.TrimPrefix(p, "/v2/up/")
+		case r.Method == "PUT" && strings.Contains(p, "/manifests/"):
+			ckey = "manifest"
+		}
+		if ckey != "" && challenged[ckey] < status(challenge, ckey, 0) {
+			challenged[ckey]++
+			log = append(log, "challenge "+ckey)
+			w.Header().Set("WWW-Authenticate", fmt.Sprintf(`Bearer realm="%s/token",service="verif",scope="repository:ns/model:push"`, srv.URL))
+			w.WriteHeader(401)
+			return
+		}
 		switch {
 		case r.Method == "HEAD" && strings.Contains(p, "/blobs/sha256:"):
 			lh := p[strings.LastIndex(p, ":")+1:]
